@@ -26,6 +26,7 @@ type fsCase struct {
 	Fault        *Fault      `json:"fault,omitempty"`
 	Fault2       *Fault      `json:"fault2,omitempty"` // on the first connection established after the fault
 	Refused      int         `json:"refused,omitempty"`
+	RefuseHow    string      `json:"refuse_how,omitempty"` // how redials are refused: "" = TCP reset | http503 | http200 (an HTTP answer that is not the protocol switch)
 	BackoffMinMs int         `json:"backoff_min_ms,omitempty"`
 	BackoffMaxMs int         `json:"backoff_max_ms,omitempty"`
 	NoReconnect  bool        `json:"no_reconnect,omitempty"`
@@ -163,7 +164,11 @@ func runFaultSim(c fsCase) *fsOutcome {
 			out.Notes = append(out.Notes, "fault frame not reached; cut applied after the workload")
 		}
 		if c.Refused > 0 {
-			rig.Proxy.SetPolicy("reject")
+			pol := "reject"
+			if c.RefuseHow != "" {
+				pol = "reject-" + c.RefuseHow
+			}
+			rig.Proxy.SetPolicy(pol)
 		}
 		issue("noticed")
 		if window && !c.NoReconnect {
